@@ -1,5 +1,6 @@
 import Mdns.Lemmas.ClientStale
 import Mdns.Lemmas.Sched
+import Mdns.Lemmas.ClientWf
 import Mdns.Lemmas.Delay
 /-
   C19 on the client model: at most one queued retransmission per browsed type and per
@@ -679,5 +680,222 @@ theorem oneEach_run : ∀ (h : List (Nat × List Packet × List Command)) (s : S
   | (now, pkts, cmds) :: rest, s, hs => by
     simp only [run]
     exact oneEach_run rest _ (oneEach_iter s now pkts cmds hs)
+
+/-! ### follow-ups (C04): a due `Resolve(inst, k)` is run -/
+
+/-- a queued follow-up that is due is run on the cache of the re-run phase: when something is
+    missing the query goes out, and try `k + 1` is queued 500 ms ahead while `k < 3` -/
+theorem runReruns_resolve_due (now : Nat) (inst : BList) (k n : Nat) (hdue : now ≥ n) :
+    ∀ (pre : List Rerun) (fuel : Nat) (keep post : List Rerun) (st : State), pre.length < fuel →
+      ∀ qs, queryUnresolved st.cache inst = some qs →
+        sendQuery st.cache now qs ∈ (runReruns st now fuel keep (pre ++ ⟨n, .resolve inst k⟩ :: post)).2 ∧
+        (k < MAX_TRY → (⟨now + RESOLVE_WAIT, .resolve inst (k + 1)⟩ : Rerun) ∈
+          (runReruns st now fuel keep (pre ++ ⟨n, .resolve inst k⟩ :: post)).1.reruns)
+  | [], fuel + 1, keep, post, st, _, qs, hqs => by
+    simp only [List.nil_append]
+    rw [runReruns]
+    simp only [hdue, if_true]
+    refine ⟨List.mem_append_left _ ?_, ?_⟩
+    · simp [execRerun, execResolveInst, hqs]
+    · intro hk
+      apply runReruns_keeps
+      · simp [execRerun, execResolveInst, hqs, hk, addRerun]
+      · simp only [RESOLVE_WAIT]
+        omega
+  | p :: pre', fuel + 1, keep, post, st, hf, qs, hqs => by
+    have hf' : pre'.length < fuel := by simpa using hf
+    simp only [List.cons_append]
+    rw [runReruns]
+    split
+    · have hc : (execRerun { st with reruns := [] } now p.cmd).1.cache = st.cache := execRerun_cache _ now p.cmd
+      have ih := runReruns_resolve_due now inst k n hdue pre' fuel keep
+        (post ++ (execRerun { st with reruns := [] } now p.cmd).1.reruns)
+        { (execRerun { st with reruns := [] } now p.cmd).1 with reruns := [] } hf' qs (by simpa [hc] using hqs)
+      simp only [List.append_assoc, List.cons_append, hc] at ih ⊢
+      exact ⟨List.mem_append_right _ ih.1, ih.2⟩
+    · exact runReruns_resolve_due now inst k n hdue pre' fuel (keep ++ [p]) post st hf' qs hqs
+
+/-- commands never take a follow-up out of the queue -/
+theorem followup_kept_execCommand (s : State) (now : Nat) (c : Command) (r : Rerun) (hk : skey r.cmd = none)
+    (hr : r ∈ s.reruns) : r ∈ (execCommand s now c).1.reruns := by
+  have hb : ∀ ty, isBrowseOf ty r = false := by
+    intro ty
+    rw [isBrowseOf_iff, hk]
+    rfl
+  have hh : ∀ key, isResolveOf key r = false := by
+    intro key
+    rw [isResolveOf_iff, hk]
+    rfl
+  cases c with
+  | browse ty ch co =>
+    let x0 : State := { s with reruns := s.reruns.filter (fun r => !isBrowseOf ty r),
+                               queriers := (ty, ch) :: s.queriers.filter (fun q => q.1 != ty) }
+    have h0 : r ∈ x0.reruns := List.mem_filter.mpr ⟨hr, by simp [hb ty]⟩
+    obtain ⟨extra, he, _⟩ := af_queryCacheForService x0 now ty ch
+    have h1 : r ∈ (queryCacheForService x0 now ty ch).1.reruns := by
+      rw [he]
+      exact List.mem_append_left _ h0
+    show r ∈ (execBrowse s now false ty 1 co ch).1.reruns
+    unfold execBrowse
+    simp only [Bool.false_eq_true, if_false]
+    split
+    · exact h1
+    · simp only [addRerun]
+      exact List.mem_append_left _ h1
+  | stopBrowse ty =>
+    simp only [execCommand, execStopBrowse]
+    split
+    · exact hr
+    · exact List.mem_filter.mpr ⟨hr, by simp [hb ty]⟩
+  | resolveHost h0 ch t =>
+    have h1 : r ∈ s.reruns.filter (fun r => !isResolveOf (lower h0) r) := List.mem_filter.mpr ⟨hr, by simp [hh (lower h0)]⟩
+    simp only [execCommand, execResolveHost, Bool.false_and, Bool.false_eq_true, if_false]
+    cases t with
+    | none =>
+      simp only [Option.map_none]
+      split
+      · simp only [addRerun]
+        exact List.mem_append_left _ h1
+      · exact h1
+    | some t0 =>
+      simp only [Option.map_some]
+      split
+      · simp only [addRerun]
+        exact List.mem_append_left _ h1
+      · exact h1
+  | stopResolve h0 =>
+    simp only [execCommand, execStopResolve]
+    split
+    · exact hr
+    · exact List.mem_filter.mpr ⟨hr, by simp [hh (lower h0)]⟩
+  | ipInterval ms => exact hr
+  | verify inst t =>
+    simp only [execCommand, execVerify, Bool.false_eq_true, if_false]
+    split
+    · exact hr
+    · simp only [addRerun, addTimers]
+      exact List.mem_append_left _ hr
+  | metrics ch => exact hr
+  | acceptUnsolicited on => exact hr
+
+theorem followup_kept_runCommands (now : Nat) (r : Rerun) (hk : skey r.cmd = none) : ∀ (l : List Command) (s : State),
+    r ∈ s.reruns → r ∈ (runCommands s now l).1.reruns
+  | [], _, hr => hr
+  | c :: rest, s, hr => by
+    simp only [runCommands]
+    exact followup_kept_runCommands now r hk rest _ (followup_kept_execCommand s now c r hk hr)
+
+/-- **A due follow-up is run in the iteration.**  `Resolve(inst, k)` is queued for `n ≤ now`.  In
+    the iteration at `now` - whatever it reads and whatever commands it processes - it is run on
+    the cache as it is when the re-run phase starts: if something is still missing there
+    (`queryUnresolved = some qs`), the query `qs` goes out in this iteration and, while `k < 3`,
+    try `k + 1` is queued for `now + 500`. -/
+theorem followup_due_iter (s : State) (now : Nat) (pkts : List Packet) (cmds : List Command) (inst : BList) (k n : Nat)
+    (hr : (⟨n, .resolve inst k⟩ : Rerun) ∈ s.reruns) (hdue : n ≤ now) (qs : List (BList × Nat))
+    (hqs : queryUnresolved (runCommands (preCommands s now pkts) now cmds).1.cache inst = some qs) :
+    sendQuery (runCommands (preCommands s now pkts) now cmds).1.cache now qs ∈ (Client.iter s now pkts cmds).2 ∧
+    (k < 3 → (⟨now + 500, .resolve inst (k + 1)⟩ : Rerun) ∈ (Client.iter s now pkts cmds).1.reruns) := by
+  have h1 : (⟨n, .resolve inst k⟩ : Rerun) ∈ (preCommands s now pkts).reruns := by
+    obtain ⟨extra, he, _⟩ := af_ingress now pkts s
+    show _ ∈ (ingress s now pkts).1.reruns
+    rw [he]
+    exact List.mem_append_left _ hr
+  have h2 := followup_kept_runCommands now _ rfl cmds _ h1
+  obtain ⟨pre, post, hpp⟩ := List.append_of_mem h2
+  have hlen : pre.length < (runCommands (preCommands s now pkts) now cmds).1.reruns.length * 2 + 2 := by
+    rw [hpp]
+    simp only [List.length_append, List.length_cons]
+    omega
+  have hrun := runReruns_resolve_due now inst k n hdue pre
+    ((runCommands (preCommands s now pkts) now cmds).1.reruns.length * 2 + 2) [] post
+    { (runCommands (preCommands s now pkts) now cmds).1 with reruns := [] } hlen qs hqs
+  rw [← hpp] at hrun
+  refine ⟨rerunPhase_outs_in_iter s now pkts cmds _ hrun.1, ?_⟩
+  intro hk
+  exact rerunPhase_reruns_in_iter s now pkts cmds _ (hrun.2 hk)
+
+/-! ### an instance without SRV entry stays without one while nothing arrives -/
+
+theorem get_none_of_not_mem_keys (t : Table) (k : BList) (h : k ∉ t.keys) : t.get k = none := by
+  induction t with
+  | nil => rfl
+  | cons p rest ih =>
+    obtain ⟨pk, pv⟩ := p
+    simp only [Table.keys_cons, List.mem_cons, not_or] at h
+    simp only [Table.get, List.lookup]
+    have : (k == pk) = false := by simpa using h.1
+    simp only [this]
+    exact ih h.2
+
+theorem not_mem_keys_of_get_none (t : Table) (k : BList) (h : t.get k = none) : k ∉ t.keys := by
+  induction t with
+  | nil => simp [Table.keys]
+  | cons p rest ih =>
+    obtain ⟨pk, pv⟩ := p
+    simp only [Table.get, List.lookup] at h
+    split at h
+    · cases h
+    · rename_i hne
+      simp only [Table.keys_cons, List.mem_cons, not_or]
+      exact ⟨by simpa using hne, ih h⟩
+
+/-- the SRV names after the refresh look-ups of the browsed types are the same -/
+theorem refreshTypes_srv_keys (now : Nat) : ∀ (l : List BList) (c : Cache), (refreshTypes c now l).1.srv.keys = c.srv.keys
+  | [], _ => rfl
+  | ty :: rest, c => by
+    simp only [refreshTypes]
+    rw [refreshTypes_srv_keys now rest]
+    unfold refreshType
+    simp only []
+    have h1 : ∀ (l : List BList) (sd : SrvTxtDue), (refreshSrvTxtGo now l sd).cache.srv.keys = sd.cache.srv.keys := by
+      intro l
+      induction l with
+      | nil => intro sd; rfl
+      | cons i r ih =>
+        intro sd
+        unfold refreshSrvTxtGo
+        rw [ih]
+        simp only [keys_modify]
+    have h2 : ∀ (l : List BList) (hd : HostsDue), (refreshHostsGo now l hd).cache.srv.keys = hd.cache.srv.keys := by
+      intro l
+      induction l with
+      | nil => intro hd; rfl
+      | cons i r ih =>
+        intro hd
+        unfold refreshHostsGo
+        rw [ih]
+    unfold refreshDueHosts refreshDueSrvTxt
+    rw [h2, h1]
+    unfold refreshDuePtr
+    split <;> rfl
+
+theorem refreshResolversGo_srv (now : Nat) : ∀ (l : List BList) (c : Cache), (refreshResolversGo c now l).1.srv = c.srv
+  | [], _ => rfl
+  | h :: rest, c => by
+    simp only [refreshResolversGo]
+    rw [refreshResolversGo_srv now rest]
+    rfl
+
+/-- an iteration without datagram and command does not give an instance an SRV entry -/
+theorem srv_none_quiet (s : State) (now : Nat) (inst : BList) (h : s.cache.srv.get inst = none) :
+    (Client.iter s now [] []).1.cache.srv.get inst = none ∧
+    (runCommands (preCommands s now []) now []).1.cache.srv.get inst = none := by
+  refine ⟨?_, h⟩
+  have hk := not_mem_keys_of_get_none _ _ h
+  apply get_none_of_not_mem_keys
+  intro hm
+  apply hk
+  have hc : (Client.iter s now [] []).1.cache.srv = evictLive now (preEvict s now [] []).cache.srv := by
+    simp only [Client.iter, runIpCheck_cache, evictAddrPhase, evictAddrHosts_cache, evictServicesPhase]
+    rfl
+  have hk2 : (preEvict s now [] []).cache.srv.keys = s.cache.srv.keys := by
+    unfold preEvict
+    simp only [refreshResolvers, refreshActive, addTimers_cache]
+    rw [refreshResolversGo_srv, refreshTypes_srv_keys, rerunPhase_cache]
+    rfl
+  rw [hc] at hm
+  have h1 := (keys_evictLive_sublist now _).subset hm
+  rw [hk2] at h1
+  exact h1
 
 end Mdns.Client
